@@ -258,7 +258,7 @@ def main(tier, seed):
             all_cases[variant].append(case)
             stats['images'] += 1
             # restarts: every boundary class sampled + a stride
-            if completed > 0 and (k % 23 == 0 or abs(k - min(stream.close_pos, key=lambda c: abs(c - k))) <= 14):
+            if 0 < completed < len(ref) and (k % 23 == 0 or abs(k - min(stream.close_pos, key=lambda c: abs(c - k))) <= 14):
                 c2 = dict(case)
                 c2['kind'] = 'restart'
                 c2['variant'] = 'rel'
@@ -296,7 +296,7 @@ def main(tier, seed):
                     all_cases[variant].append(case)
                     stats['images'] += 1
                     stats['second_level_images'] = stats.get('second_level_images', 0) + 1
-                    if k2 % 15 == 0:
+                    if k2 % 15 == 0 and 0 < completed < len(ref):
                         c2 = dict(case)
                         c2['kind'] = 'restart'
                         c2['variant'] = 'rel'
